@@ -22,6 +22,10 @@ package main
 //   "parent" : backup --parent <clean snapshot of the same tree> (unchanged
 //              files are not opened, so faults that only strike when a file is
 //              opened or read are inert there)
+//   "again-skip-if-unchanged" / "again-dry-run" (single faults): the faulted
+//              backup is repeated with the first snapshot as parent and
+//              --skip-if-unchanged resp. --dry-run (no snapshot may be written;
+//              the status must be the same)
 // Quick tier: all single faults in both modes, pairs in mode "full" over a
 // representative subset of the fault kinds; thorough: everything.
 // plus, for the exit-code mapping of main(), one child process per single fault
@@ -582,6 +586,67 @@ func TestVerif_C55(t *testing.T) {
 				if !exp.must[rel] && !exp.may[rel] {
 					r.Violationf(ck, key+"|unexpected|"+rel, detail, "the snapshot contains %s (%s) which could not be read / does not exist", rel, got[rel])
 				}
+			}
+		}
+	}
+
+	// the same fault again in a follow-up run that may skip the snapshot: every single fault is backed up
+	// twice, the second time with --skip-if-unchanged and the first snapshot as parent (the nightly job with
+	// a persistently unreadable file), and with --dry-run.  The status must not depend on whether a snapshot
+	// was written.
+	for _, a := range assignments {
+		if len(a) != 1 {
+			continue
+		}
+		for _, mode := range []string{"again-skip-if-unchanged", "again-dry-run"} {
+			ck := mode + "|" + a.String()
+			if !r.Case(ck) {
+				continue
+			}
+			if r.Expired() {
+				return
+			}
+			key := "C55|" + ck
+			detail := map[string]any{"faults": a, "mode": mode}
+			err1, id1, stderr1 := e.backup(a, BackupOptions{Force: true})
+			if id1 == "" || (err1 != nil && err1 != ErrInvalidSourceData) {
+				r.Violationf(ck, key+"|first-run", detail, "first run: err=%v snapshot=%q stderr: %s", err1, id1, verifC55Tail(stderr1))
+				continue
+			}
+			opts := BackupOptions{Parent: id1, SkipIfUnchanged: true}
+			if mode == "again-dry-run" {
+				opts = BackupOptions{Parent: id1, DryRun: true}
+			}
+			var err2 error
+			var id2, stderr2 string
+			if p, msg := vh.NoPanic(func() { err2, id2, stderr2 = e.backup(a, opts) }); p {
+				r.Violationf(ck, key+"|panic", detail, "runBackup panicked: %s", msg)
+				continue
+			}
+			r.Eval(2)
+			r.Trace(1)
+			// the parent is the first run's snapshot, which lacks the faulted item: that item is new
+			// for the second run and is opened and read again, so the fault is as effective as without a parent
+			exp := verifC55Expectation(a, false)
+			if exp.mustFail {
+				r.Nontrivial(key)
+			}
+			status := "other"
+			switch {
+			case err2 == nil:
+				status = "0"
+			case err2 == ErrInvalidSourceData:
+				status = "3"
+			}
+			r.Outcome(fmt.Sprintf("%s:status=%s:snapshot=%v", mode, status, id2 != ""))
+			detail["second_run_snapshot"] = id2
+			switch {
+			case status == "other":
+				r.Violationf(ck, key+"|fatal", detail, "second run returned %v instead of nil / ErrInvalidSourceData; stderr: %s", err2, verifC55Tail(stderr2))
+			case exp.mustFail && status != "3":
+				r.Violationf(ck, key+"|status-success", detail, "an existing item could not be read in the second run (%s) but runBackup returned success; stderr: %s", mode, verifC55Tail(stderr2))
+			case !exp.mustFail && !exp.mayFail && status != "0":
+				r.Violationf(ck, key+"|status-incomplete", detail, "every existing item was read in the second run (%s) but runBackup returned ErrInvalidSourceData; stderr: %s", mode, verifC55Tail(stderr2))
 			}
 		}
 	}
